@@ -193,7 +193,11 @@ func runC14(r *core.Run) {
 			include := (i/4)%2 == 0
 			format := []string{"V3", "V4"}[(i/8)%2]
 			orig := c14Proofs(rng, dleqMode)
-			mintURL := []string{"https://mint.example.com", "http://localhost:3338", "https://m.example/path/with/é", ""}[rng.Intn(4)]
+			mintURLs := []string{"https://mint.example.com", "http://localhost:3338", "https://m.example/path/with/é", "",
+				// the URL is data: whatever was put in comes out (trailing slashes, letter case, ports, queries, blanks)
+				"https://mint.example.com/", "https://mint.example.com/cashu/", "HTTPS://Mint.Example.COM", "https://mint.example.com:443",
+				"https://mint.example.com//", "http://[::1]:3338/", "https://mint.example.com/?a=1&b=%20", " https://mint.example.com ", "mint.example.com", "/"}
+			mintURL := mintURLs[rng.Intn(len(mintURLs))]
 			sig := fmt.Sprintf("rt/%s/dleq%d/incl%v/%d", format, dleqMode, include, i)
 			if !r.Want(sig) {
 				continue
